@@ -205,13 +205,29 @@ def run(ctx):
     sizes = [1, 7, 8, 63, 64, 65, 255, 256, 4096, 65535, 65536, 65537, 1 << 17, (1 << 17) + 8, 1 << 20]
     for rep in range(ctx.pick(300, 3000)):
         size = rng.choice(sizes) if rng.random() < 0.7 else rng.randrange(1, 300)
-        v = rng.choice([0, 1, 2, 255, (1 << size) - 1, 1 << (size - 1), rng.getrandbits(min(size, 200)), -1, -rng.getrandbits(8), (1 << size) + 5, size, 65536 + size])
+        # 15, 31, 46 are the one-byte images of None / True / False in the node serialisation; None itself is the value of the
+        # empty strided interval ESI(size) = BVV(None, size)
+        v = rng.choice([0, 1, 2, 255, (1 << size) - 1, 1 << (size - 1), rng.getrandbits(min(size, 200)), -1, -rng.getrandbits(8), (1 << size) + 5, size, 65536 + size,
+                        15, 31, 46, None, None])
         ctx.count(); nleaf += 1
+        if v is None:
+            e = claripy.ESI(size)
+            if e.op != "BVV" or e.args != (None, size) or e.length != size:
+                ctx.violation("C06/ESI/value-differs-from-the-one-built", "ESI(%d) returned a node with args %r" % (size, e.args), {"size": size})
+                continue
+            keep_alive.append(e)
+            if pool.setdefault(skey(e, memo), e) is not e:
+                ctx.violation("C06/identity/two-objects-one-structure", "two live objects for ESI(%d)" % size, {"size": size})
+            elif size <= 64 and len(ser_lines) < ctx.pick(6000, 60000):
+                r_ = ser_request(e)
+                if r_:
+                    ser_lines.append(r_); ser_want.append(Base._ast_serialize(e.op, e.args, e.annotations, e.length).hex())
+            continue
         e = claripy.BVV(v, size)
         want = v % (1 << size)
         if e.op != "BVV" or e.args != (want, size) or e.length != size:
             ctx.violation("C06/BVV/value-differs-from-the-one-built", "BVV(%#x, %d) returned BVV(%#x, %r) of length %r" % (
-                v if size < 300 else v % (1 << 64), size, e.args[0] % (1 << 64), e.args[1], e.length), {"value": hex(v), "size": size})
+                v if size < 300 else v % (1 << 64), size, e.args[0] % (1 << 64) if isinstance(e.args[0], int) else -1, e.args[1], e.length), {"value": hex(v), "size": size})
             continue
         keep_alive.append(e)
         k = skey(e, memo)
